@@ -9,7 +9,7 @@ COQ_CORR = 'corr_C19'
 N_QUICK = 2500
 N_THOROUGH = 12000
 THOROUGH_EXHAUSTIVE = False
-VM_CASES = 76          # the first cases are also evaluated inside Coq (vm_compute); the corpus minus its last entry
+VM_CASES = 80          # the first cases are also evaluated inside Coq (vm_compute); the corpus minus its last entry
 RULE = ('cases = corpus + random rules printed from abstract token lists (literal chunks incl. digits, "-", ".", '
         'non-ASCII; values containing CR (the wildcard marker), LF, NUL, TAB; plain wildcards in the three flavours :n <n> {n}; int/float/re/path filters in bottle and dotted '
         'flavour, named and anonymous; adjacent wildcards, adjacent literals, leading/trailing literals) x paths that '
@@ -191,6 +191,11 @@ def corpus():
         mk([L('v-'), W('w', 're', r'\b[a-z]+'), L('/'), W('u', 're', '^a+', 'd{')], '/v-abc/aa'),
         mk([W('w', 'int'), W('h', 're', r'(?<![0-9])-?\d+', 'd<')], '/12-5'),
         mk([L('a'), W('h', 're', r'(?<!a)\d+')], '/a12'),
+        # ---- literal text containing closing delimiters / template metacharacters
+        mk([L('tpl/}/'), W('name')], '/tpl/}/v'),
+        mk([L('set'), W('a', 'int', fl='d{'), L('}/end')], '/set7}/end'),
+        mk([L('js/}}/'), W('n', 'int')], '/js/}}/7'),
+        mk([L('a>%s/'), W('x'), L('$1')], '/a>%s/v$1'),
         # ---- raw request paths with doubled slashes at their ends, first/last wildcard able to hold '/'
         mk([L('files/'), W('p', 'path')], '/files/css//'),
         mk([L('files/'), W('p', 'path')], '//files/css'),
@@ -239,7 +244,9 @@ def corpus():
     ]
 
 
-LITS = ['a', 'ab', 'abc', 'b', 'e', 'x-y', '0', '7', '-', '.5', 'a.b', '.txt', 'z', 'é', '10', 'files/', 'a/']
+LITS = ['a', 'ab', 'abc', 'b', 'e', 'x-y', '0', '7', '-', '.5', 'a.b', '.txt', 'z', 'é', '10', 'files/', 'a/',
+        # closing delimiters are plain literal text for the parser (and special for str.format / % templates)
+        '}', '}}', 'a}b', '>', '%s', '$1']
 SEPS = ['/', '/', '/', '', '-', '.']
 RE_ARGS = ['[a-z]+', 'a*', '[^/]+', r'\d{2}', 'ab|a', '[a-z]*', '/?[a-z]+', '.+']
 # masks that look BEHIND their own start (lookbehind, word boundary, anchors): the router applies a filter to the rest
